@@ -8,6 +8,11 @@ HEADER_SETS = {
     "origin": [("Origin", "https://app.example")],
     "preflight": [("Origin", "https://app.example"), ("Access-Control-Request-Method", "PUT"), ("Access-Control-Request-Headers", "X-Custom, content-type")],
     "range": [("Range", "bytes=0-3")],
+    # field names are case-insensitive (HTTP/2-terminating proxies forward them in lower case)
+    "preflight-lowercase": [("origin", "https://app.example"), ("access-control-request-method", "PUT"), ("access-control-request-headers", "X-Custom, content-type")],
+    "preflight-uppercase": [("ORIGIN", "https://app.example"), ("ACCESS-CONTROL-REQUEST-METHOD", "PUT"), ("ACCESS-CONTROL-REQUEST-HEADERS", "X-Custom, content-type")],
+    "range-lowercase": [("range", "bytes=2-5")],
+    "range-closed": [("Range", "bytes=2-5")],
 }
 VOLATILE = {"date-unix-epoch-nanos", "date"}
 
@@ -70,7 +75,7 @@ def run(c):
                 s = server.Server(t.root, threads=4)
                 return s if s.started else None
             if srv.started:
-                sub = [w for w in work if hash(w[:4]) % (3 if c.quick else 1) == 0 or w[2] == "preflight"]
+                sub = [w for w in work if hash(w[:4]) % (3 if c.quick else 1) == 0 or w[2].startswith("preflight")]
                 # keep GET/HEAD/OPTIONS triples together
                 keys = set((w[0], w[1], w[2]) for w in sub)
                 sub = [w for w in work if (w[0], w[1], w[2]) in keys]
@@ -139,7 +144,7 @@ def judge(c, t, entry, kind, p, hname, g, h, o):
         c.ev()
         c.cls(kind, "OPTIONS", hname, entry)
         c.seen("%s x OPTIONS" % kind)
-        if hname == "preflight":
+        if hname.startswith("preflight"):
             c.seen("preflight")
         rp = dict(base, method="OPTIONS", request_b64=fetch.b64(o.raw_request), response_head=o.response[:300].decode("latin-1"))
         if o.crashed or not o.response:
@@ -151,7 +156,7 @@ def judge(c, t, entry, kind, p, hname, g, h, o):
             return
         if len(orr.body) != 0:
             c.violation("C09:OPTIONS:has-body", "OPTIONS %r carries %d body bytes" % (p, len(orr.body)), rp)
-        if hname == "preflight":
+        if hname.startswith("preflight"):
             # default configuration = allow-all: the preflight must succeed in a browser
             if orr.get("access-control-allow-origin") != "https://app.example":
                 c.violation("C09:OPTIONS:preflight:allow-origin", "Access-Control-Allow-Origin is %r" % orr.get("access-control-allow-origin"), rp)
